@@ -98,6 +98,7 @@ def shards(tier):
     for C in (2, 4):
         for st in ('peaky', 'tie_up'):
             out.append({'C': C, 'T': 300, 'style': st, 'mode': 'long'})      # sizes beyond 255: long lines and a batch of 300 lines
+    out.append({'wide': 33001})                                               # an output layer beyond the int16 range
     return out
 
 
@@ -105,6 +106,11 @@ def run_shard(shard, ctx, tier):
     from mc.core import guarded_check
     import sys
     mod = sys.modules[__name__]
+    if 'wide' in shard:
+        ids = [7, 255, 256, 32767, 32768, 32999]
+        for a_, b_ in itertools.product(ids, repeat=2):
+            guarded_check(mod, {'wide': shard['wide'], 'path': [a_, 33000, b_, b_, a_, 33000, 7]}, ctx)
+        return
     C, T, st = shard['C'], shard['T'], shard['style']
     if shard['mode'] == 'long':
         # lines of 300 frames: symbols changing every frame / every 2nd / every 7th frame, and one with 256 identical frames first
@@ -130,9 +136,49 @@ def run_shard(shard, ctx, tier):
             guarded_check(mod, dict(base, lines=[list(x) for x in tr]), ctx)
 
 
+_WIDE = {}
+
+
+def check_wide(case, ctx):
+    """arg-max paths over a 33 001-class output layer (symbol ids on both sides of 255 / 32 767)"""
+    import torch
+    from pero_ocr.ocr_engine.pytorch_ocr_engine import greedy_decode_ctc
+    from pero_ocr.decoding.decoders import GreedyDecoder, BLANK_SYMBOL
+    C, path = case['wide'], case['path']
+    blank = C - 1
+    if C not in _WIDE:
+        _WIDE[C] = [chr(0x10000 + i) for i in range(C - 1)]
+    chars = _WIDE[C]
+    T = len(path)
+    S = torch.full((2, C, T), -5.0)
+    for t, c in enumerate(path):
+        S[0, c, t] = 9.0
+        S[1, path[::-1][t], t] = 9.0
+    want = [[c for c in collapse(p, blank)] for p in (path, path[::-1])]
+    ctx.state(('wide', tuple(path)))
+    ctx.tag('output-layer-beyond-int16')
+    got = greedy_decode_ctc(S.clone(), chars + ['​'])
+    ctx.executed()
+    got_ids = [[ord(ch) - 0x10000 for ch in g] for g in got]
+    if got_ids != want:
+        ctx.violation('greedy-equals-collapse', f'{ID}/C33001/greedy_decode_ctc/text',
+                      f'greedy_decode_ctc on {C} classes, arg-max paths {[path, path[::-1]]}: symbol ids {got_ids}, collapse gives {want}')
+        return
+    x = S[0].numpy().T.astype(np.float64)
+    g = GreedyDecoder(chars + [BLANK_SYMBOL])(x - np.logaddexp.reduce(x, axis=1)[:, None]).best_hyp()
+    ctx.executed()
+    if [ord(ch) - 0x10000 for ch in g] != want[0]:
+        ctx.violation('greedy-equals-collapse', f'{ID}/C33001/GreedyDecoder/text',
+                      f'GreedyDecoder on {C} classes, path {path}: {[ord(ch) - 0x10000 for ch in g]}, collapse gives {want[0]}')
+        return
+    ctx.outcome(('wide', tuple(want[0])))
+
+
 def check_case(case, ctx):
     import torch
     from pero_ocr.ocr_engine.pytorch_ocr_engine import greedy_decode_ctc
+    if 'wide' in case:
+        return check_wide(case, ctx)
     from pero_ocr.decoding.decoders import GreedyDecoder, BLANK_SYMBOL
     from pero_ocr.char_confidences import greedy_filtration
     C, T, style = case['C'], case['T'], case['style']
@@ -203,6 +249,19 @@ def check_case(case, ctx):
             if not np.array_equal(held, snap):
                 ctx.violation('engine-and-standalone-agree', f'{K}/engine.run_ocr/returned-logits-change-after-the-next-batch',
                               f'run_ocr, batch of {len(paths)} lines: the logits returned for this batch were overwritten by the following run_ocr call')
+            # the hand-over to the stand-alone decoder: the engine's logits stored on a TextLine (sparse), densified and normalised there
+            if style in ('margin1', 'runnerup', 'peaky'):
+                from scipy import sparse
+                from pero_ocr.core.layout import TextLine
+                for i, p in enumerate(paths):
+                    tl = TextLine(id='l', logits=sparse.csc_matrix(snap[i].astype(np.float64) * 0.1 + 0.05), characters=chars + ['​'], logit_coords=[0, T])
+                    g3 = GreedyDecoder(chars + [BLANK_SYMBOL])(tl.get_full_logprobs()).best_hyp()
+                    ctx.executed()
+                    if g3 != want[i]:
+                        ctx.violation('engine-and-standalone-agree', f'{K}/engine-logits-via-TextLine/GreedyDecoder',
+                                      f'path {p} (style {style}): the engine decodes {want[i]!r}; its logits (x 0.1 + 0.05) stored on a TextLine and '
+                                      f'decoded by GreedyDecoder from get_full_logprobs() give {g3!r}', dict(case, lines=[p]))
+                        break
             # a charset with the zero-width space in the middle is mapped like any other symbol
             if C == 4 and style == 'peaky':
                 dec2, _ = engine(C, zw=True).run_ocr(img)
@@ -253,5 +312,5 @@ def describe(tier):
         'bounds': b, 'alphabets': {'styles': STYLES, 'classes': [2, 3, 4]},
         'assumptions': ['with exact ties the arg-max is the first maximal index (numpy / torch convention)', 'scores are integers 0..255 so that they can be painted into uint8 line images'],
         'min_nontrivial': 50,
-        'required_tags': ['more-than-255-frames-or-lines', 'huge-scores', 'repeat-merged', 'first-frame-non-blank', 'all-blank-line', 'batch-with-empty-and-non-empty-lines'],
+        'required_tags': ['output-layer-beyond-int16', 'more-than-255-frames-or-lines', 'huge-scores', 'repeat-merged', 'first-frame-non-blank', 'all-blank-line', 'batch-with-empty-and-non-empty-lines'],
     }
